@@ -140,7 +140,9 @@ class VCSStrategyGit(VCSStrategy):
             "--file",
             ".gitmodules",
             "--get-regexp",
-            r"\.path$",
+            # Only 'submodule.<name>.path'. Other sections may have a 'path'
+            # key of their own.
+            r"^submodule\..*\.path$",
         ]
         result = execute_command(command, _LOGGER, cwd=self.root)
         # The final element may be an empty string. Filter it.
